@@ -45,6 +45,18 @@ registry! {
     #[cfg(feature = "weak-ptrs")]
     h_count::h_weak_kernel,
     h_count::h_count_twin,
+    #[cfg(feature = "auto-collect")]
+    h_policy::h_policy_trigger,
+    #[cfg(feature = "auto-collect")]
+    h_policy::h_policy_adjust_small,
+    #[cfg(feature = "auto-collect")]
+    h_policy::h_policy_adjust_full,
+    #[cfg(feature = "auto-collect")]
+    h_policy::h_policy_wiring,
+    #[cfg(feature = "auto-collect")]
+    h_policy::h_policy_wiring4,
+    #[cfg(feature = "auto-collect")]
+    h_policy::h_policy_twin,
     #[cfg(feature = "weak-ptrs")]
     h_cyclic::h_cyclic,
     #[cfg(feature = "weak-ptrs")]
